@@ -486,10 +486,17 @@ func VerifC05_FinishedWorkDoesNotHoldUpStop() {
 	case 8:
 		pendingDone = m.SignalLowPriorityMicroTask(time.Second)
 	}
+	// the done function of a signalled microtask may be called more than once
+	// (documented: eg. a deferred call next to an early one)
+	doneTwice := false
 	if pendingDone != nil {
 		afterCancel = rt.Bool("signalled-microtask-ends-after-the-cancellation")
+		doneTwice = rt.Bool("done-called-twice")
 		if !afterCancel {
 			pendingDone()
+			if doneTwice {
+				pendingDone()
+			}
 		}
 	} else {
 		rt.Assert(ran == 1, "finishedwork/ran")
@@ -500,11 +507,15 @@ func VerifC05_FinishedWorkDoesNotHoldUpStop() {
 		<-m.Ctx.Done()
 		rt.Assert(len(reports) == 0, "finishedwork/stop-waits-for-the-signalled-microtask")
 		pendingDone()
+		if doneTwice {
+			pendingDone()
+		}
 	}
 	rep := <-reports
 	rt.Assert(rep.err == nil, "finishedwork/stop-ok")
 	rt.Assert(m.Status() == StatusOffline, "finishedwork/offline")
 	rt.Assert(atomic.LoadInt32(m.microTaskCnt) == 0 && atomic.LoadInt32(m.workerCnt) == 0, "finishedwork/nothing-counted-as-running")
+	rt.Assert(atomic.LoadInt32(microTasks) == 0, "finishedwork/global-count-zero")
 	rt.Reach("finishedwork-end")
 }
 
